@@ -522,7 +522,7 @@ func r035(c *Ctx, r *R) {
 			if !ok {
 				continue
 			}
-			rev := guardedBy(lf.Block, func(g Guard) bool { return gField(g, "reverse", true) })
+			rev := lf.GuardedBy(func(g Guard) bool { return gField(g, "reverse", true) })
 			fwd := !rev
 			if rev && b.Op == token.GTR {
 				okRev = true
